@@ -24,7 +24,7 @@ INT_DTYPES = ['int8', 'int16', 'int32', 'int64', 'uint8', 'uint16', 'uint32', 'u
 def cases(tier, seed):
     rng = random.Random('C04/%s' % seed)
     out = []
-    n = 30 if tier == 'quick' else 375
+    n = 80 if tier == 'quick' else 500
     # (nI, nX): 4*n mod 512 classes 0 (128, 256), 4 (129), 508 (127), other
     grids = [(8, 16), (16, 16), (3, 43), (127, 1), (5, 5), (9, 7), (2, 64), (4, 32), (10, 13), (43, 3), (6, 11)]
     for i in range(n):
@@ -54,7 +54,7 @@ def cases(tier, seed):
     out.append({'id': 'witness:crossline-sorted', 'kind': 'segy', 'mode': 'thorough', 'reduce_iops': False, 'rate': 4, 'cost': 1,
                 'src': {'geom': '3d', 'shape': [5, 6, 7], 'il': [1, 1], 'xl': [10, 2], 'dt': 4000, 't0': 0, 'fmt': 5, 'ext': 0, 'cubeseed': 3, 'valkind': 'smooth',
                         'hdr': {'seed': 9, 'nfields': 2, 'inside': True}, 'sorting': 1}})
-    m = 24 if tier == 'quick' else 300
+    m = 64 if tier == 'quick' else 400
     for i in range(m):
         # dtype / memory layout / key position are cycled deterministically (required strata must not depend on luck)
         out.append({'id': 'numpy:%d' % i, 'kind': 'numpy', 'nseed': rng.randrange(1 << 30), 'dtype': INT_DTYPES[i % len(INT_DTYPES)],
